@@ -71,6 +71,18 @@ def lock_case(withlog, prefix):
     return [5, int(withlog), list(prefix) + fair(2, 14)]
 
 
+def await_user_case(kind, prefix):
+    return [10, [kind], list(prefix) + fair(2)]
+
+
+def memolock_case(withlog, prefix):
+    return [11, int(withlog), list(prefix) + fair(2, 14)]
+
+
+def immediate_case():
+    return [13, [0, 0, 0]]
+
+
 def read_case(prefix):
     return [7, list(prefix) + fair(2, 3)]
 
@@ -141,6 +153,16 @@ def generate(rng, tier):
     for sch in interleavings([5, 4]):
         yield dict(case=lock_case(0, sch), kind="lock-order")
         yield dict(case=lock_case(1, sch), kind="lock-order-log", compare=False)
+    # ---- 10. await path with the awaiter's waker callbacks (clone, wake_by_ref) as yield points
+    for kind in (0, 1, 2):
+        for sch in interleavings([4, 5]):
+            yield dict(case=await_user_case(kind, sch), kind="await-user-callbacks")
+    # ---- 11/13. lock order signal -> memo -> effect (write on one thread, effect re-run on another),
+    #             and signal -> memo -> ImmediateEffect on one thread
+    for sch in interleavings([5, 4]):
+        yield dict(case=memolock_case(0, sch), kind="memo-lock-order")
+        yield dict(case=memolock_case(1, sch), kind="memo-lock-order-log", compare=False)
+    yield dict(case=immediate_case(), kind="memo-immediate")
     # ---- 7. a signal read against a write that holds the value lock
     for sch in interleavings([2, 1]):
         yield dict(case=read_case(sch), kind="read-vs-write")
@@ -172,6 +194,13 @@ def valid_case(item):
                 c[2][-2 * FAIR_ROUNDS:] == fair(2) and len(set(c[1])) == len(c[1]) and 1 not in c[1]
         if op == 5:
             return len(c) == 3 and c[1] in (0, 1) and all(t in (0, 1) for t in c[2]) and c[2][-28:] == fair(2, 14)
+        if op == 10:
+            return len(c) == 3 and len(c[1]) == 1 and c[1][0] in (0, 1, 2) and all(t in (0, 1) for t in c[2]) and \
+                c[2][-2 * FAIR_ROUNDS:] == fair(2)
+        if op == 11:
+            return len(c) == 3 and c[1] in (0, 1) and all(t in (0, 1) for t in c[2]) and c[2][-28:] == fair(2, 14)
+        if op == 13:
+            return len(c) == 2 and c[1] == [0, 0, 0]
         if op == 7:
             return len(c) == 2 and all(t in (0, 1) for t in c[1]) and c[1][-6:] == fair(2, 3)
         if op == 9:
@@ -204,7 +233,7 @@ def oracle(item, impl):
     if not isinstance(impl, list):
         return "harness error: malformed observation %r" % (impl,)
     op = c[0]
-    if op == 1:
+    if op in (1, 10):
         aw, cdone, hang = impl
         if hang:
             return "a thread is blocked forever (await path)"
@@ -261,6 +290,19 @@ def oracle(item, impl):
         for a, b in log:
             if 2 * (a - 1) != b:
                 return "effect run saw (a, b) = (%d, %d): no single value of s gives both (mid-notification read)" % (a, b)
+        return None
+    if op == 13:
+        return "thread blocked forever: self-deadlock (memo notifies an ImmediateEffect under its lock)" if impl[0] else None
+    if op == 11:
+        if c[1] == 0:
+            return "threads blocked forever: lock-order inversion (memo vs effect)" if impl[0] else None
+        log, sts, hang = impl
+        if hang or 2 in sts:
+            return "threads blocked forever: lock-order inversion (memo vs effect)"
+        if sts[1] != 1:
+            return "the writer did not finish within the bounded extra steps"
+        if not log or log[-1] != [20, 5]:
+            return "the effect did not run after its sources changed (last saw %r)" % (log[-1:],)
         return None
     if op == 5:
         if c[1] == 0:
@@ -326,15 +368,18 @@ def nontrivial(item, model):
     if c[0] == 9:
         return True
     sched = c[-1]
+    if c[0] == 13:
+        return True
     n = {1: lambda: len(c[1]) + 1, 2: lambda: len(c[2]) + 1, 3: lambda: len(c[1]), 4: lambda: 2, 5: lambda: 2,
-         7: lambda: 2}[c[0]]()
-    tail = n * (14 if c[0] == 5 else 3 if c[0] == 7 else FAIR_ROUNDS)
+         7: lambda: 2, 10: lambda: 2, 11: lambda: 2}[c[0]]()
+    tail = n * (14 if c[0] in (5, 11) else 3 if c[0] == 7 else FAIR_ROUNDS)
     pre = sched[:-tail] if tail else sched
     switches = sum(1 for a, b in zip(pre, pre[1:]) if a != b)
     return switches >= 2
 
 
-NAMES = {9: "random stress with watchdog", 7: "signal read vs write holding the lock", 1: "await path", 2: "effect channel", 3: "signal writes / memo pulls", 4: "mid-notification read",
+NAMES = {10: "await path, waker callbacks as yield points", 11: "lock order signal -> memo -> effect",
+         13: "signal -> memo -> ImmediateEffect on one thread", 9: "random stress with watchdog", 7: "signal read vs write holding the lock", 1: "await path", 2: "effect channel", 3: "signal writes / memo pulls", 4: "mid-notification read",
          5: "lock order notify_subs vs effect re-run"}
 
 
@@ -358,6 +403,8 @@ def coverage_extra(results):
 RULE = ("every case = scenario + explicit schedule (list of thread ids, one slot = run that REAL thread from its current named yield "
         "point to the next) + a fixed round-robin suffix (the 'bounded extra scheduler steps'). Exhaustive enumeration of all "
         "interleavings of the instrumented segments for: 1 awaiter x completer for each of ready()/into_future()/by_ref() (56 each), "
+        "the same with the awaiter's waker vtable (clone / wake_by_ref = user code called inside park_if_still_loading) as yield "
+        "points (126 each), signal -> memo -> effect lock order (126) and signal -> memo -> ImmediateEffect, "
         "1 sender x receiver of the effect channel at the finest granularity (70), 2 writers (20), pull-vs-write (84), "
         "mid-notification read (35), notify_subs vs effect re-run lock order (126); seeded samples (quick) or the full sets (thorough) "
         "for 2 awaiters (9240 each), 2 notifications (3003), 2 senders, pull-vs-pull, plus seeded random 3-4 thread cases; "
@@ -381,6 +428,8 @@ ASSUMPTIONS = [
     "sequential consistency; a thread blocked on a lock resumes as soon as the lock is free",
     "wakers only set a flag / schedule the task (a waker that polls the task inline from inside wake() is outside the model)",
     "one completion round of the async derived value per case (reloads are a sequence of such rounds)",
+    "user callbacks instrumented as yield points: the awaiter's waker clone / wake_by_ref and the entry of the effect's mark_check / "
+    "mark_dirty; NOT instrumented: waker drop, wake under the drain lock, closures of memos/effects/fetchers, Drop of stored values",
 ]
 LEVEL_TEXT = ("Coq proofs about executable protocol models transcribed from the code (await path of async derived values for any number "
               "of awaiters and every schedule: no lost wake-up and the completer cannot be stuck; effect notification channel for any "
